@@ -946,6 +946,7 @@ func (a *Agent) DownloadGet(FileID int) *Download {
 }
 
 func (a *Agent) PortFwdNew(SocketID, LclAddr, LclPort, FwdAddr, FwdPort int, Target string) {
+	verifhook.Point("agent.table.lock")
 	var portfwd = &PortFwd{
 		Conn:    nil,
 		SocktID: SocketID,
@@ -1058,6 +1059,7 @@ func (a *Agent) PortFwdRead(SocketID int) ([]byte, error) {
 }
 
 func (a *Agent) PortFwdClose(SocketID int) {
+	verifhook.Point("agent.table.lock")
 	a.PortFwdsMtx.Lock()
 	defer a.PortFwdsMtx.Unlock()
 
@@ -1088,6 +1090,7 @@ func (a *Agent) PortFwdClose(SocketID int) {
 }
 
 func (a *Agent) SocksClientAdd(SocketID int32, conn net.Conn, ATYP byte, IpDomain []byte, Port uint16) *SocksClient {
+	verifhook.Point("agent.table.lock")
 
 	var client = new(SocksClient)
 
@@ -1165,6 +1168,7 @@ func (a *Agent) SocksClientRead(client *SocksClient) ([]byte, error) {
 }
 
 func (a *Agent) SocksClientClose(SocketID int32) bool {
+	verifhook.Point("agent.table.lock")
 	found := false
 
 	a.SocksCliMtx.Lock()
@@ -1198,6 +1202,7 @@ func (a *Agent) SocksClientClose(SocketID int32) bool {
 }
 
 func (a *Agent) SocksServerRemove(Addr string) {
+	verifhook.Point("agent.table.lock")
 
 	a.SocksSvrMtx.Lock()
 
